@@ -448,6 +448,14 @@ class Interp:
                 return ('sym', Sym('member', (s, fld), qtype(node)))
             if not isinstance(s, dict):
                 raise PEError('member %s of non-record %r at %s' % (fld, s, astdb.loc_str(node)))
+            if fld not in s and '_default' not in s and '_union' not in s and node.get('isArrow'):
+                # C idiom: a pointer to a record and a pointer to its first member are interchangeable
+                first = next((k for k in s if not str(k).startswith('_')), None)
+                if first is not None and isinstance(s[first], dict) and fld in s[first]:
+                    s = s[first]
+                elif isinstance(p, Ptr) and isinstance(p.c, dict) and fld in p.c and \
+                        next((k for k in p.c if not str(k).startswith('_')), None) == p.k:
+                    s = p.c
             return (s, fld)
         if k == 'ArraySubscriptExpr':
             a, i = kids(node)
